@@ -92,6 +92,13 @@ def dropLocalsL (ns : List Nat) : Ctx → Ctx
     every group level (code after the D47 repair) -/
 def defGlobal (n : Nat) (v : Val) (c : Ctx) : Ctx := addGlobal n v (dropLocalsL [n] c)
 
+/-- `for context in self.contexts[1:]: context.lets.pop(name, None)`: the token aliases of the names in `ls` are dropped
+    from every frame but the global one -/
+def dropLetsL (ls : List Nat) : Ctx → Ctx
+  | [] => []
+  | [g] => [g]
+  | f :: fs => { f with lets := f.lets.filter (fun p => !ls.contains p.1) } :: dropLetsL ls fs
+
 /-- `Context.__getitem__`: the meaning, defining a global `UnrecognizedMacro` on a miss -/
 def lookup (n : Nat) (c : Ctx) : Val × Ctx :=
   match find n c with
@@ -106,6 +113,16 @@ def letCs (dest src : Nat) (c : Ctx) : Ctx :=
 /-- `Context.let(dest, source)` for a non-escape source token: `self.top.lets[dest] = source` -/
 def letTok (dest tok : Nat) (c : Ctx) : Ctx :=
   modifyTop (fun f => { f with lets := (dest, tok) :: f.lets }) c
+
+/-- `Context.let(dest, source, local=False)` (`\\global\\let`) for an escape-sequence source: `value = self[source]`; the macro
+    binding and the token alias of `dest` are popped from every frame above the global one; `contexts[0][dest] = value` -/
+def letGlobalCs (dest src : Nat) (c : Ctx) : Ctx :=
+  let (v, c') := lookup src c
+  addGlobal dest v (dropLetsL [dest] (dropLocalsL [dest] c'))
+
+/-- `Context.let(dest, source, local=False)` for a non-escape source token: same pops; `contexts[0].lets[dest] = source` -/
+def letGlobalTok (dest tok : Nat) (c : Ctx) : Ctx :=
+  modifyGlobal (fun f => { f with lets := (dest, tok) :: f.lets }) (dropLetsL [dest] (dropLocalsL [dest] c))
 
 /-- `Context.catcode`: copy-on-write on the top frame -/
 def setCatCtx (ch k : Nat) (c : Ctx) : Ctx :=
@@ -165,6 +182,8 @@ inductive Op where
   | setVerbatim
   | lookup (n : Nat)
   | gdef (n : Nat) (v : Val)
+  | gletCs (dest src : Nat)
+  | gletTok (dest tok : Nat)
   deriving Repr
 
 def step (c : Ctx) : Op → Ctx
@@ -178,6 +197,8 @@ def step (c : Ctx) : Op → Ctx
   | .setVerbatim => setVerbatim c
   | .lookup n => (lookup n c).2
   | .gdef n v => defGlobal n v c
+  | .gletCs d s => letGlobalCs d s c
+  | .gletTok d t => letGlobalTok d t c
 
 def run (ops : List Op) (c : Ctx) : Ctx := ops.foldl step c
 
